@@ -247,6 +247,7 @@ pub fn run(tier: Tier) -> i32 {
         }
     }
     // ---- mixed codes incl. codes that are prefixes of other codes: E44 / E444 / E445 / E40 / E41
+    let mut mixed_stream: Vec<u8> = Vec::new();
     {
         let mut names = vec!["tdh.trigger type != RDH trigger on page 0", "tdh.orbit != RDH orbit", "tdh.bc != RDH bc on page 0", "tdh.reserved bit 15", "tdh.continuation clear on continuation page", "rdh.bc=0xdec", "running.page counter +4"];
         if !tier.is_thorough() {
@@ -270,6 +271,7 @@ pub fn run(tier: Tier) -> i32 {
             cur = c02::Witness { name: w.name, links, order: cur.order.clone(), stave: false };
         }
         let b = grammar::interleave(&cur.links, &cur.order).bytes();
+        mixed_stream = b.clone();
         // reference run: which codes are produced, how many of each
         let scratch = Scratch::new("c16r");
         let r = Run::new(&[scratch.file("in.raw", &b).display().to_string(), "check".into(), "all".into(), "its".into()]).cwd(&scratch.path).run();
@@ -412,6 +414,10 @@ pub fn run(tier: Tier) -> i32 {
             });
         }
     }
+    // ---- option pairs: every subset of size <= 2 of an option menu x 2 check modes x {mixed-code stream, clean},
+    //      judged against the reference run (same mode / filter / custom checks, no display option) by generic rules
+    let pair_runs = option_pairs(&mut rep, &mixed_stream, &clean_bytes, clean.packets.len());
+    rep.cov("option_pair_runs", json!(pair_runs));
     // ---- display filter in-process: all (filter code, message code) pairs
     let codes: Vec<&str> = vec!["10", "11", "12", "30", "40", "41", "42", "44", "440", "441", "442", "443", "444", "445", "45", "50", "59", "60", "70", "71", "72", "73", "74", "75", "81", "100", "101", "110", "111", "701", "990", "991", "992", "9001", "9002", "9003", "9004", "9005", "1", "4", "9", "99", "900"];
     let mut pairs = 0u64;
@@ -476,10 +482,145 @@ pub fn run(tier: Tier) -> i32 {
     rep.cov("code_pairs", json!(pairs));
     rep.cov("distinct_nontrivial", json!(cases.iter().filter(|c| c.exit != Exit::Code(0)).count()));
     rep.cov("exhaustive", json!(true));
-    rep.cov("rule", json!("contract table over: clean x 5 -E values x 3 modes; 1/2/21 errors x 5 -E values x 7 display options; a stream with mixed codes (E10, E11, E40, E41, E44, E444, E445, ...) x code lists incl. prefixes; a fatal framing error at every packet index x 3 -E values; {fatal framing error, truncated last payload, RDH sanity fault, clean} x 7 modes incl. the three views and data to stdout x 2 -E values with the oracle: exit = N iff an error was reported (ERROR line on stderr or errors / fatal error in the statistics file); 5 unreadable / unrecognisable inputs x 3 modes; 10 invalid option combinations (must not write st.json / out.raw); all ordered pairs of 43 codes through the display filter; every message sequence of length <= 4 over 4 codes x 31 code-filter subsets x 5 display caps through the real ErrPrinter (shown = the first N listed messages); thorough: every -E value 1..=255 x {clean, one error, one muted error, fatal framing error} and -E 0 / 256 / -1 / 1000 rejected. non-trivial = the contract demands a non-zero exit"));
+    rep.cov("rule", json!("contract table over: clean x 5 -E values x 3 modes; 1/2/21 errors x 5 -E values x 7 display options; a stream with mixed codes (E10, E11, E40, E41, E44, E444, E445, ...) x code lists incl. prefixes; a fatal framing error at every packet index x 3 -E values; {fatal framing error, truncated last payload, RDH sanity fault, clean} x 7 modes incl. the three views and data to stdout x 2 -E values with the oracle: exit = N iff an error was reported (ERROR line on stderr or errors / fatal error in the statistics file); 5 unreadable / unrecognisable inputs x 3 modes; 10 invalid option combinations (must not write st.json / out.raw); every subset of size <= 2 of an 11-atom option menu (-m, two -w lists, -e 2, -e 1000, -E 7, -S, -v 0, -f, -f -o, -c) x 2 check modes x {mixed-code stream, clean stream} against its reference run (shown messages, exit status, statistics total); all ordered pairs of 43 codes through the display filter; every message sequence of length <= 4 over 4 codes x 31 code-filter subsets x 5 display caps through the real ErrPrinter (shown = the first N listed messages); thorough: every -E value 1..=255 x {clean, one error, one muted error, fatal framing error} and -E 0 / 256 / -1 / 1000 rejected. non-trivial = the contract demands a non-zero exit"));
     rep.sample(json!({"case": cases[cases.len() / 2].label, "args": cases[cases.len() / 2].args}));
     rep.assume("with an error cap the run stops early: only 'at most N shown' and the exit status are judged, not the totals");
     rep.finish()
+}
+
+fn first_lines(msgs: &[String]) -> Vec<String> {
+    let mut v: Vec<String> = msgs.iter().map(|m| strip_ansi(m.lines().next().unwrap_or("")).trim().to_string()).collect();
+    v.sort();
+    v
+}
+
+fn code_of(line: &str) -> Option<String> {
+    let i = line.find("[E")?;
+    let j = line[i..].find(']')?;
+    Some(line[i + 2..i + j].to_string())
+}
+
+/// Option atoms; `semantic` atoms change what is analysed (they are part of the reference run), the others only
+/// what is displayed / returned.
+fn option_pairs(rep: &mut Reporter, mixed: &[u8], clean: &[u8], n_packets: usize) -> u64 {
+    #[derive(Clone)]
+    struct Atom {
+        name: &'static str,
+        args: Vec<String>,
+        flag: &'static str,
+        semantic: bool,
+    }
+    let (walked, _) = stream::walk(clean);
+    let link = walked[0].rdh.link_id.to_string();
+    let toml = format!("@TOMLTEXT:cdps = {}", n_packets + 1);
+    let atoms: Vec<Atom> = vec![
+        Atom { name: "-m", args: s(&["-m"]), flag: "m", semantic: false },
+        Atom { name: "-w 10", args: s(&["-w", "10"]), flag: "w", semantic: false },
+        Atom { name: "-w 44 444 4", args: s(&["-w", "44", "444", "4"]), flag: "w", semantic: false },
+        Atom { name: "-e 2", args: s(&["-e", "2"]), flag: "e", semantic: false },
+        Atom { name: "-e 1000", args: s(&["-e", "1000"]), flag: "e", semantic: false },
+        Atom { name: "-E 7", args: s(&["-E", "7"]), flag: "E", semantic: false },
+        Atom { name: "-S json", args: s(&["-S", "@STATS", "-D", "json"]), flag: "S", semantic: false },
+        Atom { name: "-v 0", args: s(&["-v", "0"]), flag: "v", semantic: false },
+        Atom { name: "-f link", args: s(&["-f", &link]), flag: "f", semantic: true },
+        Atom { name: "-f link -o file", args: s(&["-f", &link, "-o", "out.raw"]), flag: "f", semantic: true },
+        Atom { name: "-c cdps+1", args: s(&["-c", &toml]), flag: "c", semantic: true },
+    ];
+    let mut subsets: Vec<Vec<usize>> = vec![vec![]];
+    for i in 0..atoms.len() {
+        subsets.push(vec![i]);
+        for j in (i + 1)..atoms.len() {
+            if atoms[i].flag != atoms[j].flag {
+                subsets.push(vec![i, j]);
+            }
+        }
+    }
+    struct PCase {
+        input: usize,
+        mode: Vec<String>,
+        set: Vec<usize>,
+    }
+    let inputs: [&[u8]; 2] = [mixed, clean];
+    let modes = [s(&["check", "sanity"]), s(&["check", "all", "its"])];
+    let mut cases: Vec<PCase> = Vec::new();
+    for input in 0..2 {
+        for mode in &modes {
+            for set in &subsets {
+                cases.push(PCase { input, mode: mode.clone(), set: set.clone() });
+            }
+        }
+    }
+    let run = |input: &[u8], mode: &[String], opts: &[String]| -> (fp_harness::cli::RunResult, Option<Value>) {
+        let scratch = Scratch::new("c16p");
+        let statp = scratch.join("st.json");
+        // the mode first: a -w list takes every following bare word
+        let mut a = vec![scratch.file("in.raw", input).display().to_string()];
+        a.extend(mode.iter().cloned());
+        for x in opts {
+            if let Some(t) = x.strip_prefix("@TOMLTEXT:") {
+                a.push(scratch.file("checks.toml", t.as_bytes()).display().to_string());
+            } else {
+                a.push(x.replace("@STATS", &statp.display().to_string()));
+            }
+        }
+        let r = Run::new(&a).cwd(&scratch.path).run();
+        let st = std::fs::read_to_string(&statp).ok().and_then(|t| serde_json::from_str::<Value>(&t).ok());
+        (r, st)
+    };
+    let res = par_map(&cases, |_, c| {
+        let sem: Vec<String> = c.set.iter().filter(|i| atoms[**i].semantic).flat_map(|i| atoms[*i].args.clone()).collect();
+        let all: Vec<String> = c.set.iter().flat_map(|i| atoms[*i].args.clone()).collect();
+        let (rf, _) = run(inputs[c.input], &c.mode, &sem);
+        let (rr, st) = run(inputs[c.input], &c.mode, &all);
+        (rf, rr, st)
+    });
+    for (c, (rf, rr, st)) in cases.iter().zip(res.iter()) {
+        let names: Vec<&str> = c.set.iter().map(|i| atoms[*i].name).collect();
+        let has = |f: &str| c.set.iter().any(|i| atoms[*i].name.starts_with(f));
+        let label = format!("{} | options {:?} | {}", c.mode.join(" "), names, if c.input == 0 { "mixed-code stream" } else { "clean stream" });
+        let mut bad: Option<(String, String)> = None;
+        let reference = first_lines(&split_cli_errors(&rf.stderr_str()).into_iter().filter(|m| m.contains("[E")).collect::<Vec<_>>());
+        let shown = first_lines(&split_cli_errors(&rr.stderr_str()).into_iter().filter(|m| m.contains("[E")).collect::<Vec<_>>());
+        if rf.crashed() || rr.crashed() {
+            bad = Some(("crash".into(), format!("signal {:?} / {:?}", rf.signal, rr.signal)));
+        } else {
+            let cap = has("-e 2");
+            let listed: Option<Vec<&str>> = if has("-w 10") { Some(vec!["10"]) } else if has("-w 44") { Some(vec!["44", "444", "4"]) } else { None };
+            let mut want: Vec<String> = reference.clone();
+            if let Some(l) = &listed {
+                want.retain(|m| code_of(m).map_or(false, |c| l.contains(&c.as_str())));
+            }
+            if has("-m") {
+                want.clear();
+            }
+            if cap && !has("-m") {
+                // the run stops early: at most 2 shown, each one a message of the reference run with a listed code
+                if shown.len() > 2 || shown.iter().any(|m| !want.contains(m)) {
+                    bad = Some(("shown-with-cap".into(), format!("{} messages shown: {:?}", shown.len(), shown.first())));
+                }
+            } else if shown != want {
+                let missing = want.iter().find(|m| !shown.contains(m));
+                let extra = shown.iter().find(|m| !want.contains(m));
+                bad = Some(("shown".into(), format!("{} messages shown, {} expected (reference run has {}); missing {:?}, extra {:?}", shown.len(), want.len(), reference.len(), missing, extra)));
+            }
+            if bad.is_none() {
+                let want_exit = if has("-E 7") && !reference.is_empty() { 7 } else { 0 };
+                if rr.status != Some(want_exit) {
+                    bad = Some(("exit-status".into(), format!("exit status {:?}, expected {want_exit} ({} errors in the reference run)", rr.status, reference.len())));
+                }
+            }
+            if bad.is_none() && has("-S") && !cap {
+                let t = st.as_ref().and_then(|v| v["error_stats"]["total_errors"].as_u64());
+                if t != Some(reference.len() as u64) {
+                    bad = Some(("stats-total".into(), format!("statistics total_errors {:?}, the reference run shows {} messages", t, reference.len())));
+                }
+            }
+        }
+        if let Some((sig, d)) = bad {
+            rep.violation(Violation { signature: format!("option-pairs:{sig}:{}", names.join("+").replace(' ', "")), description: format!("{d} [{label}]"), replay: json!({"mode": c.mode, "options": names, "input": c.input}) });
+        }
+    }
+    cases.len() as u64
 }
 
 /// Drives the real `ErrPrinter` and observes what it displays by capturing the logger output is not possible
